@@ -9,9 +9,9 @@ def run(ctx):
         ctx.run_shards(b, "TestVerifC17", 1, 600, "c17")
     else:
         quick = ctx.tier == "quick"
-        ctx.run_shards(b, "TestVerifC17", 11 if quick else 16, 900 if quick else 3400, "c17")
+        ctx.run_shards(b, "TestVerifC17", 16 if quick else 22, 900 if quick else 3400, "c17")
         br = ctx.build(pkg, race=True)
-        ctx.run_shards(br, "TestVerifC17", 11, 1500 if quick else 3400, "c17race", extra_env={"VERIF_TIER": "quick"}, race=True)
+        ctx.run_shards(br, "TestVerifC17", 11, 1500 if quick else 3400, "c17race", extra_env={"VERIF_TIER": "quick", "VERIF_C17_NOLATE": "1"}, race=True)
     return driver.finish(
         ctx, "exploration",
         "for every carrier x closer {application, target} x payload {0,1,4096,32768,65537,1MiB,3MiB} x {full close right after the last Write returns, "
